@@ -11,7 +11,8 @@ META = {
                    "the path table of readout_with_error is {('0'→'1'): r < p_false_pos, ('1'→'0'): r < "
                    "p_false_neg, otherwise unchanged}; every occurrence of a bitstring is redrawn and counted "
                    "once; MPS writes '1' exactly for level 1; emu-sv formats the basis index as a zero-padded "
-                   "binary string; emu-sv applies errors whenever a rate is positive.",
+                   "binary string; emu-sv applies errors whenever a rate is positive. "
+                   "All three samplers apply measurement errors on every returning path on which a rate is positive (dim ∈ {2,3} used to discard the infeasible qudit path).",
     "not_decided": "every statistical clause (Born-rule distribution, exact shot count, independence)",
     "trusted_base": ["CPython ast", "sa.interp"],
     "assumptions": ["random.random() is uniform on [0,1)"],
